@@ -183,3 +183,12 @@ func versionRangeConfigs() []config {
 		buildConfig(su, []feature{{Dim: "vrange", Name: "v=c1.2/s[1.2,1.3]", Apply: func(c, s *world.Cfg) { s.MinV, s.MaxV = 12, 13 }}}),
 	}
 }
+
+func (cf config) hasDim(dim string) bool {
+	for _, f := range cf.Feats {
+		if f.Dim == dim {
+			return true
+		}
+	}
+	return false
+}
